@@ -71,6 +71,9 @@ class ReorderCoverage(ReorderRule):
 
     def apply(self, font: ttLib.TTFont, value: otBase.BaseTable) -> None:
         coverage = _get_dotted_attr(value, self.coverage_attr)
+        if coverage is None:
+            # an optional Coverage whose offset is NULL (e.g. in MATH): nothing to do
+            return
 
         if type(coverage) is not list:
             # Normal path, process one coverage that might have a parallel list
